@@ -229,10 +229,18 @@ impl<T: Qcow2IoOps> Qcow2Dev<T> {
                             let key = cache_off >> info.cluster_bits();
 
                             if let Entry::Vacant(slot) = cluster_map.entry(key) {
-                                let cls_map = self.new_cluster.read().await;
+                                // The per-cluster lock is taken from a clone, after the
+                                // map's read lock has been released: another flush which
+                                // holds this cluster's lock asks for the map's write lock
+                                // next, and would wait forever for a reader which in turn
+                                // waits for that cluster.
+                                let cluster = {
+                                    let cls_map = self.new_cluster.read().await;
+                                    cls_map.get(&key).cloned()
+                                };
                                 // keep this cluster locked, so that concurrent discard can
                                 // be avoided
-                                if let Some(cluster) = cls_map.get(&key) {
+                                if let Some(cluster) = cluster {
                                     let mut locked_cls = cluster.write().await;
 
                                     log::debug!(
